@@ -12,6 +12,8 @@ import (
 	"sync"
 	"time"
 
+	"github.com/nuetzliches/hookaido/internal/app"
+	"github.com/nuetzliches/hookaido/internal/config"
 	"github.com/nuetzliches/hookaido/internal/queue"
 )
 
@@ -218,6 +220,16 @@ type clock struct {
 func (c *clock) now() time.Time { c.mu.Lock(); defer c.mu.Unlock(); return c.t }
 func (c *clock) set(ns int64)   { c.mu.Lock(); c.t = time.Unix(0, ns).UTC(); c.mu.Unlock() }
 
+func compiledFor(backend string, cfg qCfg, policy string) config.Compiled {
+	return config.Compiled{
+		Routes:             []config.CompiledRoute{{Path: "/verif", QueueBackend: backend}},
+		QueueLimits:        config.QueueLimitsConfig{MaxDepth: cfg.MaxDepth, DropPolicy: policy},
+		QueueRetention:     config.QueueRetentionConfig{MaxAge: time.Duration(cfg.RetAge), PruneInterval: time.Duration(cfg.PruneIv), Enabled: true},
+		DeliveredRetention: config.DeliveredRetentionConfig{MaxAge: time.Duration(cfg.DelivAge), Enabled: cfg.DelivAge > 0},
+		DLQRetention:       config.DLQRetentionConfig{MaxAge: time.Duration(cfg.DlqAge), MaxDepth: cfg.DlqDepth, Enabled: true},
+	}
+}
+
 func openStore(backend string, cfg qCfg, clk *clock, dbPath string) (qStore, func(), func() ([]qRow, []int, error), error) {
 	policy := "reject"
 	if cfg.DropOldest {
@@ -228,17 +240,20 @@ func openStore(backend string, cfg qCfg, clk *clock, dbPath string) (qStore, fun
 	}
 	switch backend {
 	case "memory":
-		opts := []queue.MemoryOption{
-			queue.WithNowFunc(clk.now),
-			queue.WithQueueLimits(cfg.MaxDepth, policy),
-			queue.WithQueueRetention(time.Duration(cfg.RetAge), time.Duration(cfg.PruneIv)),
-			queue.WithDeliveredRetention(time.Duration(cfg.DelivAge)),
-			queue.WithDLQRetention(time.Duration(cfg.DlqAge), cfg.DlqDepth),
+		// the store is built by the application's own constructor (run.go newQueueStore) from a compiled configuration,
+		// so the plumbing configuration -> store options is part of what is checked; the clock is injected afterwards
+		st, _, err := app.VerifNewQueueStore(compiledFor("memory", cfg, policy), dbPath)
+		if err != nil {
+			return nil, nil, nil, err
 		}
+		s, ok := st.(*queue.MemoryStore)
+		if !ok {
+			return nil, nil, nil, fmt.Errorf("newQueueStore(memory) returned %T", st)
+		}
+		queue.WithNowFunc(clk.now)(s)
 		if cfg.PressItems > 0 {
-			opts = append(opts, queue.WithMemoryPressureLimits(cfg.PressItems, 0))
+			queue.WithMemoryPressureLimits(cfg.PressItems, 0)(s)
 		}
-		s := queue.NewMemoryStore(opts...)
 		snap := func() ([]qRow, []int, error) {
 			envs := s.VerifSnapshot()
 			out := make([]qRow, 0, len(envs))
@@ -249,17 +264,16 @@ func openStore(backend string, cfg qCfg, clk *clock, dbPath string) (qStore, fun
 		}
 		return s, func() {}, snap, nil
 	case "sqlite":
-		s, err := queue.NewSQLiteStore(dbPath,
-			queue.WithSQLiteNowFunc(clk.now),
-			queue.WithSQLiteQueueLimits(cfg.MaxDepth, policy),
-			queue.WithSQLiteRetention(time.Duration(cfg.RetAge), time.Duration(cfg.PruneIv)),
-			queue.WithSQLiteDeliveredRetention(time.Duration(cfg.DelivAge)),
-			queue.WithSQLiteDLQRetention(time.Duration(cfg.DlqAge), cfg.DlqDepth),
-			queue.WithSQLiteCheckpointInterval(0),
-		)
+		st, _, err := app.VerifNewQueueStore(compiledFor("sqlite", cfg, policy), dbPath)
 		if err != nil {
 			return nil, nil, nil, err
 		}
+		s, ok := st.(*queue.SQLiteStore)
+		if !ok {
+			return nil, nil, nil, fmt.Errorf("newQueueStore(sqlite) returned %T", st)
+		}
+		queue.WithSQLiteNowFunc(clk.now)(s)
+		queue.WithSQLiteCheckpointInterval(0)(s)
 		snap := func() ([]qRow, []int, error) {
 			envs, err := s.VerifSnapshot()
 			if err != nil {
